@@ -1,6 +1,7 @@
 """Translator, part 6: the statement level of the writer -> lean/JellyGenerated/StmtGen.lean.
 
-    pyjelly/serialize/encode.py : encode_spo, encode_triple, encode_quad   (module-level functions)
+    pyjelly/serialize/encode.py : encode_spo, encode_triple, encode_quad, encode_namespace_declaration (module-level functions),
+                                  TermEncoder.encode_iri
 
 These carry the repeated-term elision of C19 (a slot equal to the previous statement's is left out), the roll-back of C20 (the
 repeated terms are put back when a statement is refused) and the row bracket of C18 around every statement. They are
@@ -258,6 +259,110 @@ class Fn:
         return "\n".join(self.lines)
 
 
+# -- TermEncoder.encode_iri and encode_namespace_declaration (the writer's side of a namespace declaration) -----------------
+def render_encode_iri(tree: ast.Module) -> str:
+    cd = next((n for n in tree.body if isinstance(n, ast.ClassDef) and n.name == "TermEncoder"), None)
+    fn = next((f for f in (cd.body if cd else []) if isinstance(f, ast.FunctionDef) and f.name == "encode_iri"), None)
+    if fn is None:
+        raise Unsupported(f"{SRC}: TermEncoder.encode_iri not found")
+    a = fn.args
+    if [x.arg for x in a.args[1:]] == [] or len(a.args) != 3 or a.vararg or a.kwarg or a.kwonlyargs or a.defaults:
+        fail(fn, "parameter list")
+    sparam, mparam = a.args[1].arg, a.args[2].arg
+    if ast.unparse(a.args[1].annotation) != "str" or ast.unparse(a.args[2].annotation) != "jelly.RdfIri":
+        fail(fn, "parameter annotations")
+    body = [s for s in fn.body if not (isinstance(s, ast.Expr) and isinstance(s.value, ast.Constant))]
+    if len(body) != 4:
+        fail(fn, "shape")
+    s0, s1, s2, s3 = body
+    if not (isinstance(s0, ast.Assign) and isinstance(s0.targets[0], ast.Tuple) and len(s0.targets[0].elts) == 3 and all(isinstance(e, ast.Name) for e in s0.targets[0].elts)
+            and isinstance(s0.value, ast.Call) and ast.unparse(s0.value.func) == "self.encode_iri_indices" and len(s0.value.args) == 1
+            and getattr(s0.value.args[0], "id", None) == sparam and not s0.value.keywords):
+        fail(s0, "call of encode_iri_indices")
+    rows, pidx, nidx = (e.id for e in s0.targets[0].elts)
+    proj = {rows: "t1__.1", pidx: "t1__.2.1", nidx: "t1__.2.2"}
+    lines = [f"def TermEncoder.encode_iri ({sparam} : String) : M Jelly.TermEnc (List Row × (Nat × Nat)) := do",
+             f"  let t1__ ← TermEncoder.encode_iri_indices {sparam}",
+             f"  let mut {mparam}__ : Nat × Nat := (0, 0)"]
+    for st in (s1, s2):
+        if not (isinstance(st, ast.Assign) and isinstance(st.targets[0], ast.Attribute) and getattr(st.targets[0].value, "id", None) == mparam
+                and st.targets[0].attr in ("prefix_id", "name_id") and getattr(st.value, "id", None) in (pidx, nidx)):
+            fail(st, "field of the IRI message")
+        if st.targets[0].attr == "prefix_id":
+            lines.append(f"  {mparam}__ := ({proj[st.value.id]}, {mparam}__.2)")
+        else:
+            lines.append(f"  {mparam}__ := ({mparam}__.1, {proj[st.value.id]})")
+    if not (isinstance(s3, ast.Return) and getattr(s3.value, "id", None) == rows):
+        fail(s3, "return")
+    lines.append(f"  return ({proj[rows]}, {mparam}__)")
+    return "\n".join(lines)
+
+
+def render_namespace(tree: ast.Module) -> str:
+    fn = next((f for f in tree.body if isinstance(f, ast.FunctionDef) and f.name == "encode_namespace_declaration"), None)
+    if fn is None:
+        raise Unsupported(f"{SRC}: encode_namespace_declaration not found")
+    a = fn.args
+    names = [x.arg for x in a.args]
+    anns = [ast.unparse(x.annotation) if x.annotation is not None else "" for x in a.args]
+    if anns != ["str", "str", "TermEncoder"] or a.vararg or a.kwarg or a.kwonlyargs or a.defaults:
+        fail(fn, "parameter list")
+    pname, pvalue, penc = names
+    body = [s for s in fn.body if not (isinstance(s, ast.Expr) and isinstance(s.value, ast.Constant))]
+    lines = [f"def encode_namespace_declaration ({pname} : String) ({pvalue} : String) : M Jelly.TermEnc (List Row) := do"]
+    msg = rows = decl = rowmsg = None
+    for st in body:
+        # iri = jelly.RdfIri()
+        if isinstance(st, ast.Assign) and isinstance(st.targets[0], ast.Name) and isinstance(st.value, ast.Call) and ast.unparse(st.value.func) == "jelly.RdfIri" \
+                and not st.value.args and not st.value.keywords and msg is None:
+            msg = st.targets[0].id
+            lines.append(f"  let mut {msg}__ : Nat × Nat := (0, 0)")
+            continue
+        if isinstance(st, ast.Expr) and isinstance(st.value, ast.Call) and getattr(getattr(st.value.func, "value", None), "id", None) == penc \
+                and st.value.func.attr in ("start_row", "end_row") and not st.value.args:
+            lines.append(f"  TermEncoder.{st.value.func.attr}")
+            continue
+        # [*rows] = term_encoder.encode_iri(value, iri=iri)   /   rows = list(...)
+        if isinstance(st, ast.Assign) and isinstance(st.value, ast.Call) and getattr(getattr(st.value.func, "value", None), "id", None) == penc \
+                and st.value.func.attr == "encode_iri" and msg is not None:
+            tg = st.targets[0]
+            if isinstance(tg, ast.List) and len(tg.elts) == 1 and isinstance(tg.elts[0], ast.Starred) and isinstance(tg.elts[0].value, ast.Name):
+                rows = tg.elts[0].value.id
+            else:
+                fail(st, "target of encode_iri")
+            given = dict(zip(("iri_string", "iri"), st.value.args))
+            for k in st.value.keywords:
+                given[k.arg] = k.value
+            if set(given) != {"iri_string", "iri"} or getattr(given["iri_string"], "id", None) != pvalue or getattr(given["iri"], "id", None) != msg:
+                fail(st, "arguments of encode_iri")
+            lines.append(f"  let t1__ ← TermEncoder.encode_iri {pvalue}")
+            lines.append(f"  let mut {rows} : List Row := t1__.1")
+            lines.append(f"  {msg}__ := t1__.2")
+            continue
+        # declaration = jelly.RdfNamespaceDeclaration(name=name, value=iri)
+        if isinstance(st, ast.Assign) and isinstance(st.targets[0], ast.Name) and isinstance(st.value, ast.Call) \
+                and ast.unparse(st.value.func) == "jelly.RdfNamespaceDeclaration" and not st.value.args:
+            kw = {k.arg: getattr(k.value, "id", None) for k in st.value.keywords}
+            if kw != {"name": pname, "value": msg}:
+                fail(st, "namespace declaration message")
+            decl = st.targets[0].id
+            continue
+        # row = jelly.RdfStreamRow(namespace=declaration)
+        if isinstance(st, ast.Assign) and isinstance(st.targets[0], ast.Name) and isinstance(st.value, ast.Call) and ast.unparse(st.value.func) == "jelly.RdfStreamRow" \
+                and not st.value.args and len(st.value.keywords) == 1 and st.value.keywords[0].arg == "namespace" and getattr(st.value.keywords[0].value, "id", None) == decl and decl:
+            rowmsg = st.targets[0].id
+            continue
+        if isinstance(st, ast.Expr) and isinstance(st.value, ast.Call) and isinstance(st.value.func, ast.Attribute) and st.value.func.attr == "append" \
+                and getattr(st.value.func.value, "id", None) == rows and rows and len(st.value.args) == 1 and getattr(st.value.args[0], "id", None) == rowmsg and rowmsg:
+            lines.append(f"  {rows} := {rows} ++ [Row.namespace {pname} (some {msg}__)]")
+            continue
+        if isinstance(st, ast.Return) and getattr(st.value, "id", None) == rows and rows:
+            lines.append(f"  return {rows}")
+            continue
+        fail(st, "statement")
+    return "\n".join(lines)
+
+
 def translate() -> str:
     tree = ast.parse((REPO / SRC).read_text())
     out = ["import JellyModel.PyPreludeStmt", "import JellyGenerated.EncGen", "/-!",
@@ -271,6 +376,8 @@ def translate() -> str:
         out.append(f"/-- `{name}` ({SRC}:{fn.lineno}) -/")
         out.append(Fn(fn).render())
         out.append("")
+    out += ["/-- `TermEncoder.encode_iri`: the ids of `encode_iri_indices` stored in the IRI message (its two fields are the result) -/",
+            render_encode_iri(tree), "", "/-- `encode_namespace_declaration` -/", render_namespace(tree), ""]
     out.append("end Jelly.Gen")
     return "\n".join(out) + "\n"
 
